@@ -10,10 +10,30 @@ LT = {"SO3": pp.SO3_type, "SE3": pp.SE3_type, "RxSO3": pp.RxSO3_type, "Sim3": pp
 LTNAME = {v: k for k, v in LT.items()}
 
 
-def lie(ltype, data, dtype="float64", shape=None, requires_grad=False):
+VIEWS = ("contiguous", "contiguous", "transposed", "strided")
+
+
+def relayout(t, view):
+    """the same values in another memory layout: 'transposed' = batch dimensions stored in reversed order (a permuted view, needs
+    two batch extents > 1, else unchanged), 'strided' = every other row of a twice as long buffer.  Layout is an input dimension of
+    every operation (out= buffers, view()/reshape() of intermediates, in-place writes)."""
+    nb = t.dim() - 1
+    if view == "transposed" and nb >= 2 and t.numel() > 0 and sum(1 for e in t.shape[:-1] if e > 1) >= 2:
+        perm = list(range(nb))[::-1] + [nb]
+        return t.permute(*perm).contiguous().permute(*perm)
+    if view == "strided" and nb >= 1 and t.shape[0] > 0:
+        big = torch.zeros((2 * t.shape[0],) + tuple(t.shape[1:]), dtype=t.dtype)
+        big[::2] = t
+        return big[::2]
+    return t
+
+
+def lie(ltype, data, dtype="float64", shape=None, requires_grad=False, view=None):
     t = torch.tensor(data, dtype=TD[dtype])
     if shape is not None:
         t = t.reshape(tuple(shape) + (t.shape[-1],))
+    if view:
+        t = relayout(t, view)
     x = pp.LieTensor(t, ltype=LT[ltype])
     if requires_grad:
         x.requires_grad_(True)
